@@ -60,6 +60,7 @@ def mkvar(key, name, sort, kind=None, info=None):
 
 
 SQRT = {}   # var id -> radicand Poly (q*q == radicand)
+ABSQ = {}   # |x| atoms: var id -> x*x, applied lazily (at obligations) so that sums of squares stay syntactically positive
 
 
 # ----------------------------------------------------------------------------- Laurent polynomials
@@ -249,7 +250,9 @@ class Poly:
         return ' + '.join(out)
 
 
-def _reduce_sqrt(p):
+def _reduce_sqrt(p, SQRT=None):
+    if SQRT is None:
+        SQRT = globals()['SQRT']
     """Rewrite q^e (|e| >= 2) for sqrt-atoms q using q^2 = radicand (keeps the normal form canonical)."""
     again = True
     while again:
@@ -938,6 +941,19 @@ def _numop0(op, a, b):
     raise SymxUnsupported(op)
 
 
+def _sos(p):
+    """syntactically a positive combination of even powers / positive-declared variables (value >= 0; > 0 unless all vanish)"""
+    if not p.t:
+        return False
+    for m, c in p.t.items():
+        if c <= 0:
+            return False
+        for v, e in m:
+            if e % 2 and not (VARS[v].info and (VARS[v].info.get('pos') or VARS[v].info.get('nonneg'))):
+                return False
+    return True
+
+
 def nonzero_check(p):
     """Fork on p == 0 when the solver can make the denominator zero."""
     if p.is_const():
@@ -964,7 +980,7 @@ def inverse(p):
     # normalise sign/scale so that p and -p, 2p share one atom
     lead = min(p.t.items(), key=lambda kv: kv[0])[1]
     pn = p.scale(1 / lead)
-    v = mkvar(('inv', pn.key()), None, 'R', 'inv', {'nz': True})
+    v = mkvar(('inv', pn.key()), None, 'R', 'inv', {'nz': True, 'pos': True} if _sos(pn) else {'nz': True})
     if not v.defs:
         v.deps = tuple(pn.vars())
         v.defs = [v.z * lower(pn) == 1]
@@ -1011,6 +1027,15 @@ def sx_sqrt(x):
             p = Poly({tuple(im): Fraction(1)})
             if p.is_const():
                 return SNum(outer, False)
+    c0 = CUR[0]
+    if c0 is not None and not _known_nonneg(p):
+        # domain: the radicand must be provably non-negative on this path, otherwise the path forks and the negative side
+        # is not modelled (numpy would produce NaN there)
+        k = ('sqrt-dom', p.key())
+        if k not in c0.names:
+            c0.names[k] = True
+            if not c0.decide(zr(p) >= 0):
+                raise SymxUnsupported('sqrt of a value the solver can make negative (NaN semantics are not modelled)')
     v = mkvar(('sqrt', p.key()), None, 'R', 'sqrt', {'nonneg': True})
     if not v.defs:
         v.deps = tuple(p.vars())
@@ -1071,7 +1096,7 @@ def sx_abs(x):
             xz = lower(p)
         v.defs = [v.z == z3.If(xz >= 0, xz, -xz)]
         v.ev = lambda env, p=p: abs(p.evalf(env))
-        SQRT[v.id] = p * p
+        ABSQ[v.id] = p * p
     c0 = CUR[0]
     if c0 is not None:
         c0.ensure([v.id])
@@ -1514,7 +1539,33 @@ class SCx:
         if len(self.t) == 1:
             (k, (a, b)), = self.t.items()
             return sx_sqrt(SNum(a * a + b * b))
+        ex = self.exact_parts()
+        if ex is not None:
+            re, im = ex
+            if im.p.is_zero():
+                return abs(re)
+            return sx_sqrt(re * re + im * im)
         raise SymxUnsupported('abs of a multi-phase complex value')
+
+    def exact_parts(self):
+        """(re, im) as SNum when every phase is a rational number of turns with denominator dividing 8 or 12
+        (exact cos/sin over sqrt(2), sqrt(3)); None otherwise."""
+        from . import arrays
+        re, im = SNum(P0, False), SNum(P0, False)
+        for k, (a, b) in self.t.items():
+            if not k.is_const():
+                return None
+            c = k.cval()
+            if c.denominator not in (1, 2, 3, 4, 6, 8, 12):
+                return None
+            if c.denominator in (1, 2, 4):
+                co, si = {0: (1, 0), 1: (0, 1), 2: (-1, 0), 3: (0, -1)}[int(c * 4) % 4]
+            else:
+                co, si = arrays._exact_trig(c, 'cos'), arrays._exact_trig(c, 'sin')
+            A, B = SNum(a, False), SNum(b, False)
+            re = re + A * co - B * si
+            im = im + A * si + B * co
+        return as_num(re), as_num(im)
 
     @property
     def real(self):
@@ -1523,6 +1574,9 @@ class SCx:
             return r
         if all(k == P0 for k in self.t):
             return SNum(self.t[P0][0], False)
+        ex = self.exact_parts()
+        if ex is not None:
+            return ex[0]
         return SCx.half(self + self.conjugate())
 
     @property
@@ -1531,6 +1585,9 @@ class SCx:
             return SNum(P0, False)
         if all(k == P0 for k in self.t):
             return SNum(self.t[P0][1], False)
+        ex = self.exact_parts()
+        if ex is not None:
+            return ex[1]
         d = self - self.conjugate()       # 2 i Im
         return SCx({k: (i.scale(Fraction(1, 2)), -r.scale(Fraction(1, 2))) for k, (r, i) in d.t.items()}).clean()
 
@@ -1741,6 +1798,13 @@ def lower_cx(z, L=None):
 
 
 LIN_SOLVERS = {}
+
+
+def reduce_abs(p):
+    """rewrite |x|^2 -> x^2 for absolute-value atoms"""
+    if not ABSQ or not any(v in ABSQ for m in p.t for v, e in m):
+        return p
+    return _reduce_sqrt(p, ABSQ)
 
 
 def clear_inverses(polys):
